@@ -185,12 +185,15 @@ pub fn check_c08(ctx: &Ctx) -> i32 {
         }
     });
     tally.merge(t2);
+    // flag plumbing: the layout must follow the requested setting whatever the order and alias of
+    // the builder calls (each ordering compared with the canonical one, which is judged above)
+    crate::determinism::builder_orders_part(&mut tally, "C08");
     finish(
         ctx,
         &tally,
         Meta {
             level: "model_checking",
-            rule: format!("every history of the C01 set (nV<={nv}, nA<={na}) executed twice on the real muxer, fast start on and off, over {nconf} configuration/metadata-length combinations; plus the scaling family (every video count up to 48 / 120 with three audio cadences, and 70 KB samples); differential oracle: top-level order per layout, each file dereferences to the submitted bytes (C01 oracle), reader-reduced movies (moov with chunk offsets zeroed) byte-equal; distinct by the pair of output files"),
+            rule: format!("every history of the C01 set (nV<={nv}, nA<={na}) executed twice on the real muxer, fast start on and off, over {nconf} configuration/metadata-length combinations; plus the scaling family (every video count up to 48 / 120 with three audio cadences, and 70 KB samples); every permutation and alias choice of the builder calls (video, audio, fast start, metadata) x 16 configurations against the canonical order; differential oracle: top-level order per layout, each file dereferences to the submitted bytes (C01 oracle), reader-reduced movies (moov with chunk offsets zeroed) byte-equal; distinct by the pair of output files"),
             bound: format!("nV<={nv}, nA<={na}; metadata title lengths {title_lens:?}"),
             exhaustive: true,
             assumptions: vec!["the independent reader is trusted".into()],
@@ -365,7 +368,7 @@ pub fn check_c15(ctx: &Ctx) -> i32 {
     tally.count("lattice_histories", t2.evaluations);
     tally.merge(t2);
     tally.merge(scaling_part(ctx, FileProp::C15));
-    meta.rule = format!("(1) {} (2) timestamp lattice: video timestamps = every strictly increasing choice of <= {nvm} points of {{0,1,..,5}} x 0.02 s, audio timestamps = every non-decreasing choice of <= {nam} points not before the first video point (so cross-track equalities at every index combination occur), every admissible submission order (bursts, all-video-first, alternation), {{AAC, Opus}} x both layouts: storage order by file offset must equal the merge by (tick, video first, sample number) (3) scaling family: every video count 1..={} x three audio cadences with cross-track ties x three submission shapes (up to ~300 samples per file)", meta.rule, if ctx.thorough {{ 120 }} else {{ 48 }});
+    meta.rule = format!("(1) {} (2) timestamp lattice: video timestamps = every strictly increasing choice of <= {nvm} points of {{0,1,..,5}} x 0.02 s, audio timestamps = every non-decreasing choice of <= {nam} points not before the first video point (so cross-track equalities at every index combination occur), every admissible submission order (bursts, all-video-first, alternation), {{AAC, Opus}} x both layouts: storage order by file offset must equal the merge by (tick, video first, sample number) (3) scaling family: every video count 1..={} x three audio cadences with cross-track ties x three submission shapes (up to ~300 samples per file)", meta.rule, if ctx.thorough { 120 } else { 48 });
     finish(ctx, &tally, meta)
 }
 
@@ -439,6 +442,25 @@ pub fn scaling_histories(max_video: usize) -> Vec<(Cfg, Vec<Op>, String)> {
             }
         }
     }
+    // the same small histories with absolute timestamps straddling 2^32 ticks (13 h 15 min): the
+    // rules bound a track's span, not its absolute times
+    let shift = (4294967296.0 - 9000.0) / 90000.0;
+    let shifted: Vec<(Cfg, Vec<Op>, String)> = out
+        .iter()
+        .filter(|(_, ops, _)| ops.len() >= 6 && ops.len() <= 40)
+        .map(|(c, ops, n)| {
+            let ops2 = ops
+                .iter()
+                .map(|o| match o {
+                    Op::WV { pts, data, key } => Op::WV { pts: T(pts.0 + shift), data: data.clone(), key: *key },
+                    Op::WA { pts, data } => Op::WA { pts: T(pts.0 + shift), data: data.clone() },
+                    other => other.clone(),
+                })
+                .collect();
+            (c.clone(), ops2, format!("{n}, straddling 2^32 ticks"))
+        })
+        .collect();
+    out.extend(shifted);
     // samples larger than 64 KiB (16-bit and chunk-size thresholds in size handling)
     for (codec, ac, fs) in [(VCodec::H264, Some(ACodec::AacLc), true), (VCodec::Vp9, None, false), (VCodec::H265, Some(ACodec::Opus), false), (VCodec::Av1, None, true)] {
         for big_at in 0..3usize {
@@ -466,6 +488,32 @@ pub fn scaling_histories(max_video: usize) -> Vec<(Cfg, Vec<Op>, String)> {
                 ops.push(Op::WA { pts: T(i as f64 * unit), data: Bytes::new(audio_frame(ACodec::AacLc, i as u32 + (len % 3) as u32, if i == 1 { len } else { 9 }).0) });
             }
             out.push((cfg, ops, format!("AAC payload of {len} bytes")));
+        }
+    }
+    // look-alike values: a start time, a decode delta (both in ticks) or payloads whose bytes spell
+    // a box code of the file (builders that search for a code or patch in place)
+    for code in [b"stco", b"stsz", b"stsc", b"stts", b"ctts", b"stss", b"mdat", b"moov", b"trak", b"mdia", b"stbl", b"udta", b"free"] {
+        let v = u32::from_be_bytes(*code) as u64;
+        for field in 0..3usize {
+            for fs in [true, false] {
+                let cfg = Cfg::basic(VCodec::H264, Some(ACodec::Opus), fs);
+                let start = if field == 0 { v } else { 0 };
+                let delta = if field == 1 { v } else { 1800 };
+                let mut ops = vec![];
+                for i in 0..2u64 {
+                    let t = (start + i * delta) as f64 / 90000.0;
+                    let (mut d, _) = video_frame(VCodec::H264, i == 0, i == 0, i as u32 + 1, 5);
+                    let mut a = audio_frame(ACodec::Opus, i as u32, 6).0;
+                    if field == 2 {
+                        d.extend_from_slice(code);
+                        d.push(0x80);
+                        a.extend_from_slice(code);
+                    }
+                    ops.push(Op::WV { pts: T(t), data: Bytes::new(d), key: i == 0 });
+                    ops.push(Op::WA { pts: T(t), data: Bytes::new(a) });
+                }
+                out.push((cfg, ops, format!("look-alike {} in field {field}", String::from_utf8_lossy(code))));
+            }
         }
     }
     // one history per layout with more than 2^16 samples per track (16-bit counters, table
